@@ -104,3 +104,45 @@ Lemma xml_stale_witness :
   load xml_arch default_pols (TArr 3 TInt) [0; 0; 0]%Z (DArr 3 [DNull; DInt 2; DNull]) = Ok ([0; 2; 0]%Z, true) /\
   has_unloaded xml_arch default_pols (TArr 3 TInt) (DArr 3 [DNull; DInt 2; DNull]) = true.
 Proof. repeat split; vm_compute; reflexivity. Qed.
+
+(* ---- attributes (AttributeValue members; documents: members keyed '@name') ---- *)
+Lemma attribute_lookup : forall key,
+  field_key (FLeaf LAttrInt) key = attr_key key /\ field_key (FLeaf LAttrStr) key = attr_key key /\
+  field_key (FLeaf LInt) key = DKStr key /\ field_key (FLeaf LStr) key = DKStr key.
+Proof. intros. repeat split. Qed.
+
+(* attributes are not children of their element: no items, no keys, not counted *)
+Lemma attributes_are_not_children : forall k d l, is_attr_key k = true ->
+  elem_members xml_arch ((k, d) :: l) = elem_members xml_arch l.
+Proof. intros k d l H. unfold elem_members. cbn [text_mode xml_arch List.filter fst]. rewrite H. reflexivity. Qed.
+
+Lemma xml_array_scope_of_object : forall pl l,
+  open_array xml_arch pl (DMap l)
+  = Ok (Some (List.length (elem_members xml_arch l), List.map snd (elem_members xml_arch l))).
+Proof. reflexivity. Qed.
+
+(* the value of an attribute is always text: the empty text is not a number (mismatch policy) but it is a string;
+   an empty ELEMENT is "not loaded" for both *)
+Lemma attribute_empty_text : forall pl (p : Z) (q : str),
+  load_leaf xml_arch pl LAttrInt p (DStr []) = on_mismatch pl (p, false) /\
+  load_leaf xml_arch pl LInt p (DStr []) = Ok (p, false) /\
+  load_leaf xml_arch pl LAttrStr q (DStr []) = Ok ([], true) /\
+  load_leaf xml_arch pl LStr q (DStr []) = Ok (q, false).
+Proof. intros. repeat split. Qed.
+
+Lemma attribute_number_policies : forall pl (p : Z) z,
+  load_leaf xml_arch pl LAttrInt p (DInt z) = (if in_int32 z then Ok (z, true) else on_overflow pl (p, false)) /\
+  load_leaf xml_arch pl LAttrInt p (DBool true) = on_mismatch pl (p, false).
+Proof. intros. split; reflexivity. Qed.
+
+(* class Attr (ArchCodec.fields_attr): id and name and x are attributes, x is also a child element.  The attribute x
+   and the element x share the path /object/x: with the element missing and the attribute out of range both messages
+   are reported under it, in declaration order *)
+Definition attr_doc : doc :=
+  DMap [(attr_key [105; 100]%N, DInt 3); (attr_key [110; 97; 109; 101]%N, DStr [97; 98]%N); (attr_key [120]%N, DInt 12)].
+Lemma attribute_shares_path_with_element :
+  load_root xml_arch default_pols 0 (FObj fields_attr) attr_doc
+  = Exc (EValidation [([47; 111; 98; 106; 101; 99; 116; 47; 120]%N,
+                       [[84; 104; 105; 115; 32; 102; 105; 101; 108; 100; 32; 105; 115; 32; 114; 101; 113; 117; 105; 114; 101; 100]%N;
+                        [97; 116; 116; 114; 32; 120]%N])]).
+Proof. vm_compute. reflexivity. Qed.
